@@ -1,0 +1,25 @@
+//go:build verif
+
+// Contracts for the deductive verifier in /verif (comment-only; never compiled without the tag).
+
+package main
+
+// ---------------------------------------------------------------- configuration-file interpolation (C20)
+// expandVars maps each documented variable to its documented source and nothing else.
+//@ smt (declare-fun envOf (Bytes) Bytes)
+//@ smt (declare-fun hostLabel () Bytes)
+//@ extern func os.Getenv(key string) string
+//@   pure
+//@   ensures result == envOf(key)
+//@ func expandVars(in string) (out string)
+//@   property C20
+//@   modifies *
+//@   ensures[env_variables; C20] (in == "GRAFANA_NET_ADDR" || in == "GRAFANA_NET_API_KEY" || in == "GRAFANA_NET_USER_ID") ==> out == envOf(in)
+//@   ensures[anything_else_is_not_a_variable; C20] in != "HOST" && in != "GRAFANA_NET_ADDR" && in != "GRAFANA_NET_API_KEY" && in != "GRAFANA_NET_USER_ID" ==> out == "$" ++ in
+//@
+//@ // which '$' sequences are variables at all is decided by a regular expression: bounded stand-in
+//@ func expandConfig(data string) string
+//@   property C20
+//@   trusted
+//@   ensures[only_documented_variables; C20; bounded] true
+//@   bounded TestBounded_expandConfig "every string of up to 4 (thorough: 5) pieces from {$ { } 1 x _ . space HOST NAME ${1} $1 ${HOST} $HOST GRAFANA_NET_ADDR $GRAFANA_NET_API_KEY ${GRAFANA_NET_USER_ID} \1 '} plus the documented template examples: documented variables are replaced in both spellings, every other '$' sequence is unchanged"
